@@ -372,6 +372,12 @@ func BuildGenesis(a *app.ElysApp, cfg Config, all []*Actor, feeders []*Actor, vo
 	for _, d := range []string{"ueden", "uedenb"} {
 		ap.EntryList = append(ap.EntryList, atypes.Entry{Authority: authtypes.NewModuleAddress(govtypes.ModuleName).String(), BaseDenom: d, Denom: d, Decimals: 6, DisplayName: d, CommitEnabled: true, WithdrawEnabled: true})
 	}
+	if GovOwnedShareEntries {
+		// the registry entry of the lending vault's share token exists from genesis and belongs to
+		// governance (otherwise the first deposit creates it, owned by the vault module, and nobody
+		// can ever rewrite it)
+		ap.EntryList = append(ap.EntryList, atypes.Entry{Authority: authtypes.NewModuleAddress(govtypes.ModuleName).String(), BaseDenom: "stablestake/share", Denom: "stablestake/share", Decimals: 6, DisplayName: "stablestake/share", CommitEnabled: true, WithdrawEnabled: true})
+	}
 	gs[atypes.ModuleName] = cdc.MustMarshalJSON(ap)
 	for _, f := range feeders {
 		og.PriceFeeders = append(og.PriceFeeders, oracletypes.PriceFeeder{Feeder: f.Addr.String(), IsActive: true})
@@ -540,6 +546,10 @@ func (w *World) ReadCtx() sdk.Context {
 // instances; the remaining third keeps whole seconds). All of the repository's time rules work on
 // whole unix seconds; code that compares at a finer precision is only exposed by such times.
 var SubSecondJobs bool
+
+// GovOwnedShareEntries: every other instance starts with a governance-owned registry entry for the
+// vault's share token (set by the job runner).
+var GovOwnedShareEntries bool
 
 // Nanos is the sub-second part of the block time at a height: a fixed function of the height,
 // never zero, and for one height in five within 2 ms of the next whole second.
